@@ -123,12 +123,21 @@ def gen_cases(seed, tier):
     cases = []
     tries = 0
     # the first cases are forced: Boolean roots whose operands depend on different variable sets (every seed reaches them)
-    forced = ["isect", "cut", "union"] * (4 if tier == "quick" else 40)
+    forced = ["isect", "cut", "union"] * (4 if tier == "quick" else 40) + ["pivot"] * (4 if tier == "quick" else 40)
     while len(cases) < n and tries < 20 * n:
         tries += 1
         k = int(rng.choice([1, 2, 3, 5]))
         force = forced[0] if forced else None
-        if force:
+        if force == "pivot":
+            # a rotation whose only parameter dependent part is its pivot (constant angle / matrix, constant inner domain)
+            dom = gen_geo.gen_domain(rng, max_depth=int(rng.integers(0, 2)), k=k, dep=True, allow=("rotate",), dim=2)
+            sp_ = dom["spec"]
+            if sp_.get("op") != "rotate" or not isinstance(sp_.get("around"), dict) or isinstance(sp_.get("angle"), dict) \
+                    or geo.ref(sp_["d"]).free():
+                continue
+            forced.pop(0)
+            force = None
+        elif force:
             dom = gen_geo.gen_domain(rng, max_depth=1, k=k, dep=True, allow=("bool",))
             if dom["spec"].get("op") != force or _has_flag(dom["spec"]) or has_polygon(dom["spec"]):
                 continue
